@@ -3,6 +3,7 @@
 A check's ``run_shard(ctx)`` reports everything through this object; the driver
 merges the per-shard JSON files.  Nothing here imports ofxtools.
 """
+import os
 import hashlib
 import json
 import random
@@ -117,6 +118,7 @@ class Ctx:
             "prop": self.prop,
             "shard": self.shard,
             "host_tz": getattr(self, "host_tz", None),
+            "hash_seed": os.environ.get("PYTHONHASHSEED"),
             "evaluations": self.evaluations,
             "distinct": sorted(self._distinct),
             "distinct_by_construction": self.distinct_by_construction,
